@@ -223,3 +223,44 @@ def run(repo: Repo, rep: Report, tier: str) -> None:
     # ---------------- R6 ---------------------------------------------------------------
     from .shared import borrow as _borrow18
     _borrow18(repo, rep, "C12", "C12-R2", "C18-R6", "requested poles double as wire relays without joining circuits: every relay (pre-registered poles included) records the network it carries and is reused only for that network", floor=4)
+
+    # ---------------- R7 ---------------------------------------------------------------
+    rep.rule("C18-R7", "adding poles does not change the circuit: once connections are planned (the router may run wires over grid poles), no step removes a placement until the plan "
+             "is started afresh — pole trimming comes before connection planning, so every wire end still exists when the blueprint is emitted")
+    lp7 = repo.cls("LayoutPlanner")
+    pl7 = lp7.methods["plan_layout"]
+    g7 = CFG(pl7.node)
+
+    def _self_calls7(node):
+        return {call_name(c) for c in calls_in(node) if isinstance(c.func, ast.Attribute) and isinstance(c.func.value, ast.Name) and c.func.value.id == "self"}
+
+    def _deletes7(mname, depth=0):
+        m = lp7.methods.get(mname)
+        if m is None or depth > 2:
+            return False
+        if any(isinstance(x, ast.Delete) and any("entity_placements" in norm(t) for t in x.targets) for x in walk_local(m.node)):
+            return True
+        if any(isinstance(x, ast.Call) and call_name(x) == "pop" and "entity_placements" in norm(x.func.value) for x in walk_local(m.node)):
+            return True
+        return any(_deletes7(k, depth + 1) for k in _self_calls7(m.node))
+
+    def _restarts7(mname):
+        m = lp7.methods.get(mname)
+        return m is not None and any(isinstance(x, ast.Assign) and norm(x.targets[0]) == "self.layout_plan" and isinstance(x.value, ast.Call) for x in walk_local(m.node))
+
+    simple7 = [s for s in g7.stmts() if not isinstance(s, (ast.If, ast.For, ast.While, ast.Try, ast.With))]
+    plans7 = [s for s in simple7 if "_plan_connections" in _self_calls7(s)]
+    dels7 = [s for s in simple7 if any(_deletes7(k) for k in _self_calls7(s))]
+    if not plans7 or not dels7:
+        raise AnalysisError(f"C18-R7: anchors not found in plan_layout (connection planning: {len(plans7)}, placement-removing steps: {len(dels7)})")
+    for d7 in dels7:
+        nm7 = sorted(k for k in _self_calls7(d7) if _deletes7(k))[0]
+        late = any(g7.reaches_avoiding(p7, {id(d7)}, lambda n: isinstance(n, ast.stmt) and any(_restarts7(k) for k in _self_calls7(n)) and not isinstance(n, (ast.If, ast.For, ast.While, ast.Try, ast.With)),
+                                       start_inclusive=False) for p7 in plans7)
+        rep.check(not late, "C18-R7", f"plan_layout: `{nm7}` never runs on a plan whose connections are already laid", "reachable from connection planning only through a fresh start of the plan" if not late else
+                  f"`{nm7}` can run after `_plan_connections`: a relay wire routed over a grid pole loses that pole, the emitter skips the wire (missing entity) and the far consumer is cut off", pl7.loc(d7))
+
+    # ---------------- R8 ---------------------------------------------------------------
+    from .shared import borrow as _borrow18
+    _borrow18(repo, rep, "C09", "C09-R2", "C18-R8", "grid poles are fixed obstacles: they stay where the grid put them through position optimisation, on the decomposition path too "
+              "(a shifted pole covers nothing and is trimmed)", select=lambda o: "preserves fixed positions" in o.construct or "fixed" in o.construct, floor=1)
